@@ -351,6 +351,10 @@ def run_check(prop, tier: str, seed: int, jobs: int) -> int:
                         total["harness_errors"].append(
                             f"nondeterministic history: batch {bt.name} run {idx}")
 
+    dump = os.environ.get("VERIF_DUMP_KEYS")
+    if dump:
+        Path(dump).write_text(json.dumps(
+            [{"v": e["v"], "count": e["count"], "scenario": e["scenario"]} for _, e in sorted(by_key.items())]))
     # triage
     known_seen: Dict[str, int] = {}
     new_viols: List[dict] = []
@@ -366,7 +370,8 @@ def run_check(prop, tier: str, seed: int, jobs: int) -> int:
 
     exit_code = 0
     reported = []
-    for ent in new_viols[:12]:
+    max_report = int(os.environ.get("VERIF_MAX_REPORT", "12"))
+    for ent in new_viols[:max_report]:
         v, scenario = ent["v"], ent["scenario"]
         try:
             small, sv = minimise(prop, scenario, v, budget_s=15.0 if tier == "quick" else 40.0)
@@ -395,8 +400,9 @@ def run_check(prop, tier: str, seed: int, jobs: int) -> int:
             total["harness_errors"].append(
                 f"violation {v['cls']} on {v['executor']} did not reproduce in a fresh process "
                 f"(harness nondeterminism) — not reported as VIOLATION; replay {path}")
-    if len(new_viols) > 12:
-        print(f"note: {len(new_viols) - 12} further distinct violation keys not minimised")
+    if len(new_viols) > max_report:
+        print(f"note: {len(new_viols) - max_report} further distinct violation keys not minimised")
+        exit_code = 1
 
     wall = time.time() - t0
     probes = dict(total["probes"])
